@@ -852,6 +852,34 @@ func (x *Exec) trCall(e *Expr, env *Env) (Term, error) {
 				return tBool(ok), nil
 			}
 			return val, nil
+		case "sprintf":
+			// sprintf(format, a, ...): what fmt.Sprintf returns for string arguments (the same uninterpreted function the
+			// engine uses for the call)
+			args, err := trArgs()
+			if err != nil {
+				return Term{}, err
+			}
+			if len(args) < 2 || len(args) > 5 {
+				return Term{}, fmt.Errorf("sprintf(format, a, ...) takes a format and 1 to 4 string arguments")
+			}
+			strTag := intLit(int64(x.ss.tagOf(types.Typ[types.String])))
+			box, unbox := x.boxFuns(SStr)
+			ts := []string{args[0].S}
+			sorts := []string{SStr}
+			for _, a := range args {
+				if a.Sort != SStr {
+					return Term{}, fmt.Errorf("sprintf(format, a, ...) takes string arguments")
+				}
+			}
+			for _, a := range args[1:] {
+				payload := app(box, a.S)
+				x.vc.axiom(mkEq(app(unbox, payload), a.S))
+				ts = append(ts, app("mk_Iface", strTag, payload))
+				sorts = append(sorts, SIface)
+			}
+			f := fmt.Sprintf("uf_sprintf_%d", len(args)-1)
+			x.vc.declFun(f, sorts, SStr)
+			return Term{S: app(f, ts...), Sort: SStr, T: types.Typ[types.String]}, nil
 		case "durationParses", "durationOf":
 			args, err := trArgs()
 			if err != nil {
